@@ -199,6 +199,8 @@ class PairIter:
             return self.val(e['t']) if self.cond(e['c']) else self.val(e['f'])
         if e['k'] == 'bin' and e['op'] == '&':
             return 1 if self.cond(e) else 0
+        if (e['k'] == 'bin' and e['op'] in ('==', '!=', '<', '>', '<=', '>=', '&&', '||')) or (e['k'] == 'un' and e.get('op') == '!'):
+            return 1 if self.cond(e) else 0      # a truth value compared with another (`((i & bit) != 0) == keepSet`)
         raise NotPairwise('case value ' + SX.show(e)[:40])
 
     # ---- amplitude expressions ----------------------------------------------------------------
